@@ -194,8 +194,41 @@ def check(ctx):
     ob = model.func(f"{OV}.ObjectVisitor._object")
     ctx.check("return self.object(tp, fields)" in norm(ob.node), "C05.R3", ob.qualname, ob.node.body[-1], "_object no longer hands the filtered / aliased field list to object()", ob, ob.node, detail="self.object(tp, fields)")
 
+    # ---------------- R4: one reading per metadata key
+    ctx.rule("C05.R4", "ObjectField reads each metadata key through one mapping only (full_metadata = field metadata + Annotated metadata, or metadata): both directions classify a field (flattened / properties / alias / none_as_undefined ...) from the same source", floor=8)
+    of = model.cls("apischema.objects.fields.ObjectField")
+    reads = {}
+    for name, m in of.methods.items():
+        for n in ast.walk(m.node):
+            key = mapping = None
+            if isinstance(n, ast.Compare) and len(n.ops) == 1 and isinstance(n.ops[0], (ast.In, ast.NotIn)) and isinstance(n.left, ast.Name) and n.left.id.endswith("_METADATA") and norm(n.comparators[0]) in ("self.metadata", "self.full_metadata"):
+                key, mapping = n.left.id, norm(n.comparators[0])
+            elif isinstance(n, ast.Call) and isinstance(n.func, ast.Attribute) and n.func.attr == "get" and norm(n.func.value) in ("self.metadata", "self.full_metadata") and n.args and isinstance(n.args[0], ast.Name) and n.args[0].id.endswith("_METADATA"):
+                key, mapping = n.args[0].id, norm(n.func.value)
+            elif isinstance(n, ast.Subscript) and norm(n.value) in ("self.metadata", "self.full_metadata") and isinstance(n.slice, ast.Name) and n.slice.id.endswith("_METADATA"):
+                key, mapping = n.slice.id, norm(n.value)
+            if key:
+                reads.setdefault(key, []).append((mapping, m, n))
+    ctx.require(len(reads) >= 8, f"only {len(reads)} metadata keys read by ObjectField")
+    for key, sites in sorted(reads.items()):
+        mappings = {mp for mp, _, _ in sites}
+        minority = sites[-1]
+        if len(mappings) > 1:
+            from collections import Counter
+            cnt = Counter(mp for mp, _, _ in sites)
+            least = min(cnt, key=cnt.get)
+            minority = next(x for x in sites if x[0] == least)
+        ctx.check(len(mappings) == 1, "C05.R4", f"ObjectField:{key}", minority[2],
+                  f"{key} is read through {sorted(mappings)}: `{minority[1].name}` uses {minority[0]} while the other accessors of the same key use the other mapping; a field declared through Annotated[...] metadata is then classified differently by the code paths of the two directions (serialization nests what deserialization expects flattened)",
+                  minority[1], minority[2], detail=f"{len(sites)} read(s) through {sorted(mappings)[0]}")
+    # the aggregate classification is the disjunction of the three accessors deserialization dispatches on
+    ia = of.methods.get("is_aggregate")
+    ctx.check(ia is not None and all(f in norm(ia.node) for f in ("self.flattened", "self.additional_properties", "self.pattern_properties is not None")), "C05.R4", "ObjectField.is_aggregate", ia.node.body[0] if ia else None,
+              "is_aggregate is no longer `flattened or additional_properties or pattern_properties is not None`: serialization (which dispatches on is_aggregate) and deserialization (which dispatches on the three accessors) can disagree on the layout of a field", ia, ia.node if ia else None, detail="derived from the three accessors")
+
 
 def mutants(mb):
+    mb.add_text("is-aggregate-own-metadata", "apischema/objects/fields.py", "        return (\n            self.flattened\n            or self.additional_properties\n            or self.pattern_properties is not None\n        )", "        return FLATTEN_METADATA in self.metadata or PROPERTIES_METADATA in self.metadata", "C05.R4", "ObjectField")
     S = "apischema/std_types.py"
     OVp = "apischema/objects/visitor.py"
     mb.add_text("decimal-ser-str", S, "serializer(Conversion(float, source=Decimal, target=float))", "serializer(Conversion(str, source=Decimal, target=str))", "C05.R1", "Decimal")
